@@ -756,8 +756,11 @@ func (w *World) End(p *Party) M {
 }
 
 // Tick lets more than a minute pass for p.
+// Tick lets more than a minute pass (the library's windows are 60 s; the margin absorbs the in-call
+// offset the clock compensation can leave on a timestamp when a single call is slow, e.g. under the
+// race detector with many goroutines).
 func (w *World) Tick(p *Party) M {
-	cr := w.call(p, func() { otr3.VerifAgeClocks(p.Conv, 61*time.Second) })
+	cr := w.call(p, func() { otr3.VerifAgeClocks(p.Conv, 90*time.Second) })
 	return w.record(M{"ev": "Tick"}, p, cr, []M{}, nil)
 }
 
